@@ -1,7 +1,9 @@
 // C29, producer side: real risclient.RISClients (one per source, each with its own in-memory gRPC connection to a fake
 // RIS server whose ObserveRIB stream is scripted) feed the merged RIB. A source "goes away" by graceful Stop() (noticed
 // with the next update or the end of the stream), by the end of the stream, by a stream error or by losing the server;
-// afterwards the same set-of-sources model must hold. Synchronisation is logical: an update counts as delivered when the
+// afterwards the same set-of-sources model must hold. A client whose stream ended or broke and that was not stopped
+// reconnects by itself (backoff.Retry around runORC, first retry after 2.5-7.5 s): "reconnect" histories let ONE client
+// live through several ObserveRIB sessions and lose each of them. Synchronisation is logical: an update counts as delivered when the
 // client's call into the merged RIB has returned; a client counts as gone when its goroutine (found by a pprof label)
 // has left RISClient.serviceLoop.
 package main
@@ -27,10 +29,13 @@ import (
 )
 
 type risOp struct {
-	K   string `json:"k"` // add | remove | stop | eof | break | kill | restart
+	K   string `json:"k"` // add | remove | stop | eof | break | kill | restart | reconnect
 	Src int    `json:"src"`
 	Key int    `json:"key,omitempty"`
 	Via string `json:"via,omitempty"` // stop: what the loop sees next: add | remove | eof
+	// eof | break: the client is NOT stopped afterwards: its own retry loop (backoff.Retry around runORC) opens a new
+	// ObserveRIB stream on the same client; the next event of this source is "reconnect" (wait for that stream)
+	Keep bool `json:"keep,omitempty"`
 }
 
 func (o risOp) String() string {
@@ -39,6 +44,9 @@ func (o risOp) String() string {
 		return fmt.Sprintf("%s(s%d,r%d)", o.K, o.Src, o.Key)
 	case "stop":
 		return fmt.Sprintf("Stop(s%d)+%s(r%d)", o.Src, o.Via, o.Key)
+	}
+	if o.Keep {
+		return fmt.Sprintf("%s(s%d, client keeps retrying)", o.K, o.Src)
 	}
 	return fmt.Sprintf("%s(s%d)", o.K, o.Src)
 }
@@ -70,6 +78,39 @@ func genRIS(rng *rand.Rand) risCase {
 		default:
 			c.Ops, state[s] = append(c.Ops, risOp{K: "kill", Src: s}), 2
 		}
+	}
+	return c
+}
+
+// genRISReconnect: histories in which ONE client lives through several ObserveRIB sessions: it learns routes, loses its
+// stream (end of stream or stream error), reconnects by its own retry loop, learns routes again and loses the stream
+// again (nre reconnects; the last loss may also be a graceful Stop()). The other sources advertise and withdraw in between.
+func genRISReconnect(rng *rand.Rand, nre int) risCase {
+	c := risCase{Kind: "ris", NSrc: 2 + rng.IntN(2), Routes: genRoutes(rng, 3)}
+	s0 := rng.IntN(c.NSrc)
+	session := func() {
+		c.Ops = append(c.Ops, risOp{K: "add", Src: s0, Key: rng.IntN(3)}) // every session learns at least one route
+		for i, n := 0, 3+rng.IntN(4); i < n; i++ {
+			s, k := s0, rng.IntN(3)
+			if rng.IntN(5) < 2 {
+				s = rng.IntN(c.NSrc)
+			}
+			if rng.IntN(100) < 70 {
+				c.Ops = append(c.Ops, risOp{K: "add", Src: s, Key: k})
+			} else {
+				c.Ops = append(c.Ops, risOp{K: "remove", Src: s, Key: k})
+			}
+		}
+	}
+	for i := 0; i < nre; i++ {
+		session()
+		c.Ops = append(c.Ops, risOp{K: []string{"eof", "break"}[rng.IntN(2)], Src: s0, Keep: true}, risOp{K: "reconnect", Src: s0})
+	}
+	session()
+	if rng.IntN(3) == 0 {
+		c.Ops = append(c.Ops, risOp{K: "stop", Src: s0, Key: rng.IntN(3), Via: []string{"add", "remove", "eof"}[rng.IntN(3)]})
+	} else {
+		c.Ops = append(c.Ops, risOp{K: []string{"eof", "break"}[rng.IntN(2)], Src: s0})
 	}
 	return c
 }
@@ -115,6 +156,7 @@ type risSrc struct {
 	recv    chan struct{} // one token per Recv the client enters on its stream (it is inside serviceLoop, about to block)
 	done    chan struct{} // one token per AddRoute / RemoveRoute of this source that returned
 	dropped chan struct{} // one token per DropAllBySrc of this source that returned
+	session int           // number of the ObserveRIB session of the current client (1 = first)
 }
 
 func (s *risSrc) stop() {
@@ -169,6 +211,9 @@ func inServiceLoop(label string) bool {
 
 const risWatchdog = 20 * time.Second
 
+// the client's retry loop waits 2.5-7.5 s before its first retry, 3.75-11.25 s before the second, ...
+const risReconnectWatchdog = 60 * time.Second
+
 // runRIS executes one case; id makes the goroutine labels unique. wedged reports a watchdog expiry (decides nothing).
 func runRIS(c risCase, id string, st *seqStats, viol func(string, map[string]string, string)) (wedged string) {
 	g := newRig(0, c.Routes)
@@ -176,18 +221,19 @@ func runRIS(c risCase, id string, st *seqStats, viol func(string, map[string]str
 	ck := newChecker(g, st, func(cl string, f map[string]string, d string) { failed = true; viol(cl, f, d) })
 	tc := &tokClient{g: g, by: map[interface{}]*risSrc{}}
 	srcs := make([]*risSrc, c.NSrc)
-	await := func(ch chan struct{}, what string) bool {
+	awaitFor := func(ch chan struct{}, what string, d time.Duration) bool {
 		select {
 		case <-ch:
 			return true
-		case <-time.After(risWatchdog):
+		case <-time.After(d):
 			wedged = what
 			return false
 		}
 	}
+	await := func(ch chan struct{}, what string) bool { return awaitFor(ch, what, risWatchdog) }
 	start := func(i, gen int) bool {
 		s := srcs[i]
-		s.ch, s.label, s.halted = make(chan risItem, 8), fmt.Sprintf("%s/%d/%d", id, i, gen), false
+		s.ch, s.label, s.halted, s.session = make(chan risItem, 8), fmt.Sprintf("%s/%d/%d", id, i, gen), false, 1
 		s.recv, s.dropped = make(chan struct{}, 64), make(chan struct{}, 64) // no stale tokens of the previous client
 		s.fake.streams <- s.ch
 		s.cl = risclient.New(&risclient.Request{Router: "r", VRFRD: 1}, s.cc, tc)
@@ -238,6 +284,7 @@ func runRIS(c risCase, id string, st *seqStats, viol func(string, map[string]str
 	}
 	for i, o := range c.Ops {
 		s := srcs[o.Src]
+		after := "ris-" + o.K
 		switch o.K {
 		case "add", "remove":
 			if !send(s, o, o.K) {
@@ -247,6 +294,19 @@ func runRIS(c risCase, id string, st *seqStats, viol func(string, map[string]str
 			if !start(o.Src, i+1) {
 				return
 			}
+		case "reconnect":
+			// the SAME client opens its next ObserveRIB stream (backoff.Retry calls runORC again) and blocks in Recv on it
+			if s.halted {
+				return "case asks a stopped client to reconnect"
+			}
+			s.ch = make(chan risItem, 8)
+			s.fake.streams <- s.ch
+			if !awaitFor(s.fake.opened, "client did not open a new ObserveRIB stream after losing the previous one", risReconnectWatchdog) ||
+				!await(s.recv, "client never called Recv on its new ObserveRIB stream") {
+				return
+			}
+			s.session++
+			st.byOp["ris-reconnect"]++
 		default: // the source goes away
 			switch {
 			case o.K == "stop":
@@ -275,12 +335,24 @@ func runRIS(c risCase, id string, st *seqStats, viol func(string, map[string]str
 					return "client never left serviceLoop after " + o.K
 				}
 			}
-			s.stop() // no reconnect when the backoff timer fires
+			if !o.Keep {
+				s.stop() // no reconnect when the backoff timer fires
+			}
+			if s.session > 1 {
+				// a later session of one client ended: everything it learned in THIS session has to go as well
+				after = "ris-" + o.K + "-of-reconnected-client"
+				st.byOp["ris-later-session-lost"]++
+				for k := range ck.model {
+					if ck.model[k] == 1<<uint(o.Src) {
+						st.byOp["ris-later-session-lost-sole-source-routes"]++
+					}
+				}
+			}
 			ck.note(op{K: "drop", Src: o.Src})
 			st.byOp["ris-"+o.K]++
 		}
 		st.ops++
-		if ck.verify(i, "ris-"+o.K, trace); failed {
+		if ck.verify(i, after, trace); failed {
 			break
 		}
 	}
